@@ -426,6 +426,96 @@ fn ark_part(ctx: &Ctx, rec: &mut Rec, zoo: &[SE]) {
             }
         }
     });
+
+    // batch conversions on batches whose projective Z coordinates are *related*: product 1, sum 0, all
+    // equal, one of them 1 / -1, identities of both kinds (also rescaled) in every position; and on long
+    // batches (block-wise implementations, sizes around powers of two)
+    rec.declare_form("CurveGroup::normalize_batch (related Z coordinates)");
+    rec.declare_form("ScalarMul::batch_convert_to_mul_base (related Z coordinates)");
+    rec.declare_form("CurveGroup::normalize_batch (long batch)");
+    rec.declare_form("ScalarMul::batch_convert_to_mul_base (long batch)");
+    let check_batch = |rec: &mut Rec, name: &str, inputs: &[SE], outs: &[Af], full: bool| {
+        if outs.len() != inputs.len() {
+            rec.violation(format!("{P}:{name}:length"), format!("{} inputs, {} outputs", inputs.len(), outs.len()), json!({}));
+            return;
+        }
+        for (k, (i, o)) in inputs.iter().zip(outs.iter()).enumerate() {
+            let oe: El = (*o).into();
+            if full || k % 97 == 0 || k + 2 >= inputs.len() || k == 4097 {
+                validate(ctx, rec, name, &oe, json!({"index": k, "batch_len": inputs.len()}), full && k % 3 == 0);
+            }
+            if let Err(why) = denotes(c, &oe, &i.m) {
+                rec.violation(format!("{P}:{name}:changes-element"), format!("output {k} of a batch of {}: {why}", inputs.len()), json!({"index": k, "input": el_json(&i.l)}));
+                return;
+            }
+        }
+    };
+    par(rec, |w, n, rec| {
+        let mut rng = rng_for(ctx.seed, P, w, 31);
+        let f = &c.f;
+        let reps = ctx.scale(160, 3000);
+        for rep in 0..reps {
+            if rep % n != w {
+                continue;
+            }
+            let len = 2 + rep % 5;
+            let pts: Vec<crate::model::Pt> = (0..len).map(|i| if (rep + i) % 11 == 0 { if i % 2 == 0 { c.identity() } else { c.t2() } } else { zoo[rand_range(&mut rng, zoo.len())].m.clone() }).collect();
+            let mut lam: Vec<crate::model::B> = (0..len).map(|_| { let l = rand_below(&mut rng, &f.p); if l == b(0) { b(5) } else { l } }).collect();
+            // impose a relation on the Z coordinates (= the lambdas)
+            match rep % 7 {
+                0 => { let prod = lam[..len - 1].iter().fold(b(1), |a, x| f.mul(&a, x)); lam[len - 1] = f.inv(&prod).unwrap(); }          // product = 1
+                1 => { let sum = lam[..len - 1].iter().fold(b(0), |a, x| f.add(&a, x)); lam[len - 1] = f.neg(&sum); if lam[len - 1] == b(0) { lam[len - 1] = b(1); } } // sum = 0
+                2 => { let l0 = lam[0].clone(); for l in lam.iter_mut() { *l = l0.clone(); } }                                         // all equal
+                3 => { lam[rep % len] = b(1); }                                                                                        // one is 1
+                4 => { lam[rep % len] = f.neg(&b(1)); lam[(rep + 1) % len] = b(1); }                                                    // -1 and 1
+                5 => { let prod = lam[..len - 1].iter().fold(b(1), |a, x| f.mul(&a, x)); lam[len - 1] = f.neg(&f.inv(&prod).unwrap()); } // product = -1
+                _ => { let l0 = lam[0].clone(); lam[len - 1] = f.inv(&l0).unwrap(); }                                                  // first * last = 1
+            }
+            let inputs: Vec<SE> = pts.iter().zip(lam.iter()).map(|(p, l)| SE { l: from_pt_scaled(c, p, l), m: p.clone(), class: "related-z" }).collect();
+            let ls: Vec<El> = inputs.iter().map(|s| s.l).collect();
+            rec.eval(&("related-z", rep, inputs.iter().map(|s| s.key()).collect::<Vec<_>>()), false);
+            rec.count("batches_with_related_z", 1);
+            let ls2 = ls.clone();
+            match guarded(|| (El::normalize_batch(&ls2), El::batch_convert_to_mul_base(&ls2))) {
+                Err(pn) => rec.violation(format!("{P}:batch conversion:panic"), pn, json!({"relation": rep % 7})),
+                Ok((a, bb)) => {
+                    rec.form("CurveGroup::normalize_batch (related Z coordinates)");
+                    check_batch(rec, "CurveGroup::normalize_batch (related Z coordinates)", &inputs, &a, true);
+                    rec.form("ScalarMul::batch_convert_to_mul_base (related Z coordinates)");
+                    check_batch(rec, "ScalarMul::batch_convert_to_mul_base (related Z coordinates)", &inputs, &bb, true);
+                }
+            }
+        }
+        // long batches: multiples of G accumulated in the library (Z != 1), model side by repeated addition
+        let sizes: Vec<usize> = if ctx.tier_thorough { vec![255, 256, 257, 1023, 1024, 1025, 4095, 4096, 4097, 4098, 5000, 8191, 8193, 16385] } else { vec![257, 1025, 4097, 4098, 5000] };
+        for (si, &size) in sizes.iter().enumerate() {
+            if si % n != w {
+                continue;
+            }
+            let mut inputs: Vec<SE> = Vec::with_capacity(size);
+            let mut acc_l = El::GENERATOR + El::GENERATOR;
+            let mut acc_m = c.double(&ctx.g);
+            let step_l = El::GENERATOR + El::GENERATOR + El::GENERATOR;
+            let step_m = c.add(&c.double(&ctx.g), &ctx.g);
+            for _ in 0..size {
+                inputs.push(SE { l: acc_l, m: acc_m.clone(), class: "long-batch" });
+                acc_l = acc_l + step_l;
+                acc_m = c.add(&acc_m, &step_m);
+            }
+            let ls: Vec<El> = inputs.iter().map(|s| s.l).collect();
+            rec.eval(&("long-batch", size), false);
+            rec.count("long_batch_elements", size as u64);
+            match guarded(|| (El::normalize_batch(&ls), El::batch_convert_to_mul_base(&ls))) {
+                Err(pn) => rec.violation(format!("{P}:batch conversion (long):panic"), pn, json!({"size": size})),
+                Ok((a, bb)) => {
+                    rec.form("CurveGroup::normalize_batch (long batch)");
+                    check_batch(rec, "CurveGroup::normalize_batch (long batch)", &inputs, &a, false);
+                    rec.form("ScalarMul::batch_convert_to_mul_base (long batch)");
+                    check_batch(rec, "ScalarMul::batch_convert_to_mul_base (long batch)", &inputs, &bb, false);
+                }
+            }
+        }
+    });
 }
 
 pub fn run(ctx: &Ctx, rec: &mut Rec) {
